@@ -311,7 +311,8 @@ def part_c(rec, tier, seed, errors):
     grids = {
         "MovingWindow": lambda n: [{"b": b} for b in (1, 2, 3, 5) if n >= 2 * b],
         "SeededBinarySegmentation": lambda n: [{"m": m, "M": M} for m in (1, 2, 3) for M in (2 * m, 4 * m, 50) if n >= 2 * m],
-        "CircularBinarySegmentation": lambda n: [{"m": m, "M": M} for m in (1, 2, 3) for M in (2 * m, 4 * m, 50) if n >= 2 * m and n <= 30],
+        "CircularBinarySegmentation": lambda n: [{"m": m, "M": M} for m in (1, 2, 3) for M in (2 * m, 4 * m, 50)
+                                                 if n >= 2 * m and n <= (16 if tier == "quick" else 30)],
     }
     for name, grid in grids.items():
         for n in ns:
@@ -371,7 +372,7 @@ def check_monotone(kind, X, m, via):
 def part_d(rec, tier, seed, stats):
     rng = np.random.default_rng(seed + 1)
     n_full = 5 if tier == "quick" else 7
-    n_rand = 520 if tier == "quick" else 3600
+    n_rand = 440 if tier == "quick" else 3600
     n_max = 14 if tier == "quick" else 20
     found = []
 
